@@ -74,7 +74,7 @@ for (const mergeProps of [true, false]) for (const transformOn of [false, true])
 
 export function* generate({ tier, seed }) {
   const rng = mulberry32(seed * 15485863 + 17);
-  const n = tier === 'quick' ? 3000 : 60000;
+  const n = tier === 'quick' ? 25000 : 500000;
   for (let i = 0; i < n; i++) {
     const c = rng.bool(0.12) ? buildModelCase(rng) : build(rng);
     if (!c) continue;
